@@ -51,7 +51,8 @@ def run_proofs(report, prop, modules, timeout_ms=None):
         n_cc, cc_bad = crosscheck.run(common.seed(), None if tier_name == "thorough" else 8)
     except Exception as e:                          # noqa: BLE001 - a crash of the cross-check is a checker failure
         n_cc, cc_bad = 0, [("crosscheck", "crashed", "", f"{type(e).__name__}: {e}"[:300])]
-    report.coverage["encoder_crosscheck"] = {"cases": n_cc, "disagreements": len(cc_bad)}
+    report.coverage["encoder_crosscheck"] = {"cases": n_cc, "disagreements": len(cc_bad),
+                                             "skipped_source_outside_subset": len(crosscheck.SKIPPED)}
     for b in cc_bad[:5]:
         report.failures.append(f"encoder cross-check: pyvc and CPython disagree on {b[0]} for {str(b[1])[:120]!r}: "
                                f"CPython {str(b[2])[:120]} / engine {str(b[3])[:120]}")
@@ -88,9 +89,9 @@ def run_proofs(report, prop, modules, timeout_ms=None):
                 was = any(k.startswith(fn + "|") for k in base)
                 msg = f"UNSUPPORTED {fn}: {r.get('error')}"
                 if was and not rebase:
-                    report.violation(f"{fn}: source no longer within the verified subset ({r.get('error')}); "
-                                     f"all its obligations were discharged on the unchanged tree",
-                                     {"function": fn, "error": r.get("error")}, no_input=True)
+                    report.pending_proof_violations.append(
+                        (f"{fn}: source no longer within the verified subset ({r.get('error')}); "
+                         f"all its obligations were discharged on the unchanged tree", {"function": fn, "error": r.get("error")}))
                 else:
                     report.undecided.append(msg)
             elif r["status"] == "no-obligations":
